@@ -187,14 +187,21 @@ def dfStep (ds : DState) (op : String) (a : List String) : DState × String :=
         | .eof => (ds, "err:eof")
         | .err => (ds, "err:crc")
       | "df.scan", [] =>
-        let sc := scan C d.id f
+        let sc := scan C false d.id f
+        let parts := sc.recs.map (fun (x : ByteArray × Pos) =>
+          match decodeRecord x.1 with
+          | some r => fmtRec r ++ "@" ++ fmtPos x.2
+          | none => "panic:decode")
+        (ds, "scan " ++ " ".intercalate (parts ++ [if sc.ok then "eof" else "err:crc"]))
+      | "df.scan", ["tol"] =>
+        let sc := scan C true d.id f
         let parts := sc.recs.map (fun (x : ByteArray × Pos) =>
           match decodeRecord x.1 with
           | some r => fmtRec r ++ "@" ++ fmtPos x.2
           | none => "panic:decode")
         (ds, "scan " ++ " ".intercalate (parts ++ [if sc.ok then "eof" else "err:crc"]))
       | "df.scanhint", [] =>
-        let sc := scan C d.id f
+        let sc := scan C false d.id f
         let parts := sc.recs.map (fun (x : ByteArray × Pos) =>
           match decodeHint x.1 with
           | some (k, p) => fmtKey k ++ "@" ++ fmtPos p
